@@ -166,13 +166,13 @@ Definition eps9 : Q := 1 # 1000000000.
 
 (* decidable spec for auto layout outputs, under the oracle sanity hypotheses (checked here too: when they do not
    hold the spec bit is not raised) *)
-Definition oracle_ok_b (tmin ths : Q) (cols : list acol) : bool :=
+Definition oracle_ok_b (tmin tmax ths : Q) (cols : list acol) : bool :=
   forallb (fun c => Qle_bool 0 (a_min c) && Qle_bool (a_min c) (a_max c)) cols &&
-  Qle_bool (ths + gsum a_min cols) tmin.
+  Qle_bool (ths + gsum a_min cols) tmin && Qle_bool tmin tmax.
 Definition auto_spec_b (tw : option Q) (avail tmin tmax ths : Q) (cols : list acol) (out : Q * list Q) : bool :=
   let '(W, ws) := out in
   let A := W - ths in
-  negb (oracle_ok_b tmin ths cols) ||
+  negb (oracle_ok_b tmin tmax ths cols) ||
   (Nat.eqb (length ws) (length cols) &&
    Qle_bool tmin W &&
    (match tw with None => negb (Qle_bool tmin avail) || Qle_bool W avail | Some w => Qle_bool w W end) &&
